@@ -682,6 +682,81 @@ func raceSuite(c *Ctx) []Finding {
 		}
 	}
 
+	// results are private to the call that produced them: a sum whose first file (in glob order)
+	// has never been written, next to files that have data.  Summing must leave nothing behind —
+	// the same sum again is the same, and the never-written file still reads as unknown
+	// everywhere (a value buffer shared between calls and added into would show here).
+	{
+		item4 := filepath.Join(root, "it4")
+		os.MkdirAll(item4, 0755)
+		for f := 0; f < 4; f++ {
+			if db, err := wt.Create(filepath.Join(item4, fmt.Sprintf("k%02d.wsp", f)), lay, wt.Sum, 0); err == nil {
+				if f > 0 {
+					for b := 0; b < 2; b++ {
+						pts, _ := parsePts(g.genBatch())
+						db.UpdatePointsForArchive(pts, -1, wt.Timestamp(g.now))
+					}
+				}
+				db.Sync()
+				db.Close()
+			}
+		}
+		allUnknown := func() (bool, error) {
+			db, err := wt.Open(filepath.Join(item4, "k00.wsp"))
+			if err != nil {
+				return false, err
+			}
+			defer db.Close()
+			for k := 0; k < g.lay.K(); k++ {
+				ts, err := db.FetchFromArchive(k, wt.Timestamp(g.now-g.lay.Ret(k)+1), wt.Timestamp(g.now), wt.Timestamp(g.now))
+				if err != nil {
+					return false, err
+				}
+				for _, v := range ts.Values() {
+					if !v.IsNaN() {
+						return false, nil
+					}
+				}
+			}
+			return true, nil
+		}
+		sum4 := func() (string, string, error) {
+			out := filepath.Join(dir, "sum4.txt")
+			os.Remove(out)
+			cmd := &wcmd.SumCommand{SrcBase: root, ItemPattern: "it4", SrcPattern: "*.wsp", From: wt.Timestamp(g.now - g.lay.MaxRet()), Until: wt.Timestamp(g.now), ArchiveID: -1, TextOut: out, ShowHeader: true}
+			err := cmd.Execute()
+			b, _ := ioutil.ReadFile(out)
+			po := parseOutput(string(b))
+			var parts []string
+			for _, gr := range po.groups {
+				parts = append(parts, recsJoin(gr))
+			}
+			return canonCmd(strings.Join(parts, "|")), fmt.Sprint(po.nows), err
+		}
+		before, errB := allUnknown()
+		var a1, a2, n1, n2 string
+		var e1, e2 error
+		for try := 0; try < 8; try++ {
+			a1, n1, e1 = sum4()
+			a2, n2, e2 = sum4()
+			if e1 != nil || e2 != nil || n1 == n2 {
+				break
+			}
+		}
+		after, errA := allUnknown()
+		count("sum-leaves-nothing-behind", fmt.Sprintf("ok comparable=%v", n1 == n2))
+		if errB != nil || errA != nil || e1 != nil || e2 != nil {
+			bad("sum-error", fmt.Sprintf("%v %v %v %v", errB, errA, e1, e2))
+		} else {
+			if n1 == n2 && a1 != a2 {
+				bad("sum-repeated-differs", "the same sum, run twice in the same second over files of which the first was never written, gave two different results")
+			}
+			if before && !after {
+				bad("unknown-became-known-after-sum", "a never-written file reads values other than NaN after a sum that included it")
+			}
+		}
+	}
+
 	// server: every endpoint in parallel
 	self, _ := os.Executable()
 	port := freePort()
@@ -703,6 +778,9 @@ func raceSuite(c *Ctx) []Finding {
 			fmt.Sprintf("/view?file=it%%2Ff00.wsp&retention=-1&from=%s&until=%s&now=%s", tsq(0), tsq(g.now), tsq(g.now)),
 			"/view-raw?file=it%2Ff01.wsp&retention=-1",
 			fmt.Sprintf("/sum?item=it&pattern=*.wsp&retention=-1&from=%s&until=%s&now=%s", tsq(g.now-g.lay.MaxRet()), tsq(g.now), tsq(g.now)),
+			// a never-written file, alone and as the first file of a sum (asked for before the sum)
+			fmt.Sprintf("/view?file=it4%%2Fk00.wsp&retention=-1&from=%s&until=%s&now=%s", tsq(0), tsq(g.now), tsq(g.now)),
+			fmt.Sprintf("/sum?item=it4&pattern=*.wsp&retention=-1&from=%s&until=%s&now=%s", tsq(g.now-g.lay.MaxRet()), tsq(g.now), tsq(g.now)),
 			// requests that fail, each with its own message: concurrent failures on one endpoint
 			// must not see each other's error
 			"/view?file=&retention=-1", "/view?file=it%2Ff00.wsp&retention=-1&from=zzz", "/view?file=it%2Ff00.wsp&retention=-1&until=zzz",
